@@ -181,7 +181,7 @@ prop("C01",
 prop("C02",
      theorems=["NeoFS.Meta.run_ctrOK", "NeoFS.Meta.typed_counters_exact", "NeoFS.Meta.dbCounters_eq_viewCount",
                "NeoFS.Meta.putChain_inv", "NeoFS.Meta.deleteMetadata_frame", "NeoFS.Meta.apply_removal",
-               "NeoFS.Meta.container_info_counterexample"],
+               "NeoFS.Meta.container_info_counterexample", "NeoFS.Meta.syncCounters_ok", "NeoFS.Meta.recount_agrees"],
      lean_modules=["NeoFS.Props.C02"],
      engines=[dict(name="meta", quick=1, thorough=1)],
      spec_assertions=["typed-counters", "container-info"],
